@@ -113,7 +113,7 @@ func structuralAtom(a string) bool {
 	case strings.HasPrefix(a, "!(") && strings.HasSuffix(a, "==nil)") && strings.Contains(a, "call:"):
 		return true // a reader or helper outside the module reported an error
 	case strings.Contains(a, "len(P)") || strings.Contains(a, "len(arg:"):
-		return true // compared with the length of the input
+		return shortInputAtom(a) // the input is shorter than something (a length test that PASSED is no reason)
 	case strings.HasPrefix(a, "!(") && strings.Contains(a, "err") && strings.HasSuffix(a, "==nil)"):
 		return true // a child decoder or helper failed
 	case strings.HasPrefix(a, "default("):
@@ -157,6 +157,9 @@ func rejectRule(w *World, r *Report, rule string, pkgSel func(pkg string) bool) 
 	for _, key := range w.sortedFuncKeys() {
 		fi := w.Funcs[key]
 		if fi.Decl.Body == nil || !pkgSel(fi.Pkg.Name) {
+			continue
+		}
+		if rejectOnly != nil && !rejectOnly(fi) {
 			continue
 		}
 		sig := fi.Obj.Type().(*types.Signature)
@@ -257,3 +260,44 @@ func samePkg(a, b string) bool {
 	i, j := strings.Index(a, "."), strings.Index(b, ".")
 	return i > 0 && j > 0 && a[:i] == b[:j]
 }
+
+// shortInputAtom: the atom says that the input's length is BELOW something (`len(P)<T`, `!(T<len(P))`). The
+// same comparison with the other polarity (`!(len(P)<4)`: at least four bytes are there) is a test that passed
+// on the way to the exit; it does not justify the rejection.
+func shortInputAtom(a string) bool {
+	neg := false
+	if strings.HasPrefix(a, "!(") && strings.HasSuffix(a, ")") {
+		neg = true
+		a = a[2 : len(a)-1]
+	}
+	// split at the top-level '<'
+	depth, at := 0, -1
+	for i := 0; i < len(a); i++ {
+		switch a[i] {
+		case '(', '[':
+			depth++
+		case ')', ']':
+			depth--
+		case '<':
+			if depth == 0 && at < 0 {
+				at = i
+			}
+		}
+	}
+	if at < 0 {
+		return true // equality with a length: kept as before
+	}
+	hasLen := func(s string) bool { return strings.Contains(s, "len(P)") || strings.Contains(s, "len(arg:") }
+	l, rr := hasLen(a[:at]), hasLen(a[at+1:])
+	if l && rr {
+		return true
+	}
+	if !neg {
+		return l
+	}
+	return rr
+}
+
+// rejectOnly narrows rejectRule to some functions (set around a call by a property that imports the rule for
+// one codec only).
+var rejectOnly func(fi *FuncInfo) bool
